@@ -4,6 +4,7 @@ package shmipc
 
 import (
 	"fmt"
+	"path/filepath"
 	"sort"
 	"testing"
 	"io"
@@ -352,8 +353,11 @@ func (p *ePair) cleanup() {
 		}
 	}
 	bufferManagers = &globalBufferManager{bms: make(map[string]*bufferManager, 8)}
-	os.Remove("/dev/shm/" + p.name + "_queue")
-	os.Remove("/dev/shm/" + p.name + bufferPathSuffix)
+	if m, _ := filepath.Glob("/dev/shm/" + p.name + "*"); len(m) > 0 {
+		for _, f := range m {
+			os.Remove(f)
+		}
+	}
 	for fd := range listFds() {
 		if !p.baseFds[fd] {
 			syscall.Close(fd)
